@@ -831,6 +831,15 @@ func replayFailure(cfg *runConfig, r *OblResult) (path string, confirmed bool, n
 		rec.Note = "lemma obligation: no executable counterpart; the solver output is the evidence"
 		return path, false, rec.Note
 	}
+	// hand-written scenario registered for this clause: exercises the defect class on the real code
+	if r.O.Clause != nil && r.O.Gen.con != nil && r.O.Gen.con.Scenarios != nil {
+		if sc, ok := r.O.Gen.con.Scenarios[r.O.Clause.Label]; ok {
+			ok2, n := runScenario(r.O, sc, rec)
+			rec.Confirmed = ok2
+			rec.Note = n
+			return path, ok2, n
+		}
+	}
 	if r.R.Answer != "sat" {
 		rec.Note = "solver gave no model (" + r.R.Answer + "); obligation undecided"
 		return path, false, rec.Note
@@ -1061,4 +1070,37 @@ func cmdReplayFile(prop, path string) {
 	fmt.Println("expected by the model:", strings.Join(rec.Expected, "; "))
 	fmt.Printf("VIOLATION property=%s replay=%s\n", rec.Property, path)
 	os.Exit(1)
+}
+
+func scenarioDir() string {
+	if exe, err := os.Executable(); err == nil {
+		cand := filepath.Join(filepath.Dir(filepath.Dir(exe)), "scenarios")
+		if _, err := os.Stat(cand); err == nil {
+			return cand
+		}
+	}
+	return "/verif/scenarios"
+}
+
+// runScenario runs a registered scenario test (package = the function's package) via overlay.
+func runScenario(o *Obligation, name string, rec *replayRecord) (bool, string) {
+	src, err := os.ReadFile(filepath.Join(scenarioDir(), name+".go"))
+	if err != nil {
+		return false, "scenario " + name + " not found"
+	}
+	pkg := o.Gen.fn.Pkg.Pkg.Path()
+	text := strings.Replace(string(src), "func TestGovcScenario(", "func TestGovcReplay(", 1)
+	rec.TestSource = text
+	rec.TestPackage = pkg
+	out, _ := runOverlayTest(pkg, o.Gen.fn, text)
+	rec.TestOutput = lastLines(out, 30)
+	for _, ln := range strings.Split(out, "\n") {
+		if strings.HasPrefix(ln, "GOVC-SCENARIO-VIOLATION") {
+			return true, "scenario " + name + " on the real code: " + strings.TrimPrefix(ln, "GOVC-SCENARIO-VIOLATION: ")
+		}
+	}
+	if strings.Contains(out, "GOVC-SCENARIO-OK") {
+		return false, "scenario " + name + " ran on the real code without exhibiting the failure; obligation still undischarged"
+	}
+	return false, "scenario " + name + " inconclusive: " + firstLines(out, 3)
 }
